@@ -19,8 +19,12 @@ NOTES = {
 }
 
 rows = []
+superseded = []
 for f in sorted(glob.glob(os.path.join(here, "..", "seeded", "*", "meta.json"))):
     m = json.load(open(f))
+    if m.get("superseded"):
+        superseded.append((m["id"], m["superseded"]["by_fix_commit"], m["superseded"]["reason"]))
+        continue
     needs = " ".join(m.get("needs_to_manifest", "").split())
     rows.append(dict(id=m["id"], prop=m["breaks_property"], fired=m.get("quick_checks_that_fired", []), run=m.get("quick_checks_run", []),
                      needs=needs[:230], commit=m.get("verif_commit", "?"), detail=m.get("first_violation_per_check", "")))
@@ -68,8 +72,12 @@ summary.append(f"| all | {tot} | {tot - len(missed)} | {len(missed)} |")
 out += ["", "## Summary", ""] + summary + [""]
 for k in missed:
     out.append(f"* {k}: {NOTES.get(k, 'NOT EXPLAINED - a blind spot to close')}")
+out += ["", "## Changes that a later fix: commit neutralized (kept for the record, not counted above)", ""]
+for k, c, why in superseded:
+    out.append(f"* {k} (since /repo {c}): {why}")
 open(os.path.join(here, "RESULTS.md"), "w").write("\n".join(out) + "\n")
 open(os.path.join(here, "RESULTS-summary.md"), "w").write("\n".join(summary) + "\n")
 print("\n".join(summary))
 for k in missed:
     print("*", k, ":", NOTES.get(k, "NOT EXPLAINED"))
+print("neutralized by later fixes (not counted):", ", ".join(k for k, _, _ in superseded))
